@@ -298,7 +298,7 @@ def analyse(text, died, scn, label, args):
         ties.append({"what": "a stress run of harness/c02_mainq.c printed no layout / main-thread line: nothing of this run was judged",
                      "detail": {"run": label, "args": args, "output_bytes": len(text or ""), "died": died}})
         return fails, jobs, meta, stats, None, ties
-    if not died and "fails" not in stats:
+    if not died and "fails" not in stats and not any(w.startswith("STUCK") for w in flines):   # (the watchdog exits without statistics)
         ties.append({"what": "the output of a stress run of harness/c02_mainq.c is truncated (no final statistics line): the run "
                              "cannot be judged", "detail": {"run": label, "args": args, "output_bytes": len(text or "")}})
     traces, dropped = normalise(lay, per)
@@ -341,7 +341,7 @@ def judge(ctx, exe, runs, what):
         for k in ("reads", "nested_reads", "pokes", "spurious", "phase2_runs", "async", "dropped_events", "resub", "resub_last"):
             dist[k] = dist.get(k, 0) + st.get(k, 0)
         dist["runs_" + scn] = dist.get("runs_" + scn, 0) + 1
-        if st.get("items", 0) <= 0 and not died:
+        if "fails" in st and st.get("items", 0) <= 0 and not died:
             mism.append({"what": "a stress run of harness/c02_mainq.c submitted no item at all", "detail": {"run": label, "args": [seed, scn, pm, scale]}})
     counts, nev = [0] * 64, 0
     try:
